@@ -39,7 +39,7 @@ ASSUMPTIONS = [
 ]
 TIERS = {
     "quick": {"shards": 16, "cases": 200, "timeout": 600},
-    "thorough": {"shards": 16, "cases": 2500, "timeout": 7200},
+    "thorough": {"shards": 16, "cases": 10000, "timeout": 7200},
 }
 FLOORS = {
     "quick": {"programs": 700, "executions_compared": 1500, "stage_events_compared": 15000, "epoch_pairs_checked": 10000, "distinct_nontrivial": 80, "buffers_duplicated": 300},
